@@ -179,6 +179,27 @@ CLAIMED.update({
         technique="Lean 4 proofs about request resolution, cut and sort + differential correspondence against an exact oracle"),
 })
 
+CLAIMED.update({
+    "C17": dict(
+        text=("Model of the binding as a table of live handles with one transition per exported function, each defined from "
+              "the Rust-API models (formula parser, element-specification parser, enum composition).  Theorems: no call "
+              "within the contract aborts (lifted from parse_no_panic and spec_no_panic), a non-zero code leaves the handle "
+              "table untouched with a null out-pointer, parse_formula yields a handle exactly when the parser accepts, "
+              "mass/get are the composition's, handle bookkeeping balances.  Correspondence: call sequences up to length 40 "
+              "with valid, malformed and non-UTF-8 byte strings through the real extern \"C\" functions in a child process; "
+              "return code, out-pointer and mass + six probe reads of every live handle compared after every call."),
+        design_ref="§7.17",
+        note=NOTE_COMMON + " Partial (memory safety): no Lean model expresses invalid access / double free / leak; handle bookkeeping is proved, Rust ownership trusted, the child's exit status observed. to_string_lossy is performed by the real code and passed to the model.",
+        technique="Lean 4 state-machine refinement to the Rust-API models + differential correspondence through the C ABI"),
+})
+CLAIMED["C10"]["text"] = ("Proof: neutral_mass inverts mass_charge_ratio for every non-zero charge (field identity over Q); the guarded "
+    "conversion is the identity at charge 0 and strictly increasing otherwise; for ALL THREE generators (Poisson, fine-structure "
+    "convolution, BRAIN incl. the caching generator) the pattern at charge z is proved to be the neutral pattern with only m/z "
+    "rescaled (same length, same intensities; the BRAIN sort commutes with the strictly increasing rescaling).  The same statement "
+    "is checked on the implementation itself (charge z against charge 0 of the same call: bit-identical intensities, m/z to 1e-9).")
+CLAIMED["C10"]["note"] = NOTE_COMMON + " f64 rounding not modelled (m/z compared to 1e-9 relative)."
+CLAIMED["C10"]["technique"] = "Lean 4 field/order proofs over Q for all three generator models + impl-vs-impl differential check across charges"
+
 PENDING_REASON = "check not built yet in this session; no claim is made until its model, theorems and correspondence run exist"
 
 
